@@ -204,8 +204,18 @@ def r4_length(ctx):
                 v = v[1]
             if v[0] == 'bin' and v[1].startswith('Add'):
                 parts = (v[2], v[3])
-                body = any(any(x[0] == 'call' and x[1].endswith('Option::map_or') for x in walk(p)) and
-                           any(x[0] == 'fnitem' and x[1] == BODY + '::length' for x in walk(p)) and any(x == ('int', 0) for x in walk(p)) for p in parts)
+                def body_part(p):
+                    if any(x[0] == 'call' and x[1].endswith('Option::map_or') for x in walk(p)) and \
+                            any(x[0] == 'fnitem' and x[1] == BODY + '::length' for x in walk(p)) and any(x == ('int', 0) for x in walk(p)):
+                        return True
+                    q = peel(p)
+                    if q[0] == 'phi':   # match &self.content { Some(b) => b.length(), None => 0 }
+                        alts = [peel(x) for x in q[1]]
+                        isz = [x == ('int', 0) for x in alts]
+                        isl = [x[0] == 'call' and x[1] == BODY + '::length' and any(y[0] == 'field' and y[2] == 'content' for y in walk(x)) for x in alts]
+                        return all(a or b for a, b in zip(isz, isl)) and any(isz) and any(isl)
+                    return False
+                body = any(body_part(p) for p in parts)
                 hdr = any(any(x[0] == 'call' and x[1].endswith('MessageBody>::byte_len') and any(y[0] == 'field' and y[2] == 'header' for y in walk(x)) for x in walk(p)) for p in parts)
                 ok = body and hdr
         ctx.check(ok, 'message-length', 'Message::length = declared body length (0 without body) + Header::byte_len()', f.where())
